@@ -180,8 +180,22 @@ def fault_case(case, part):
         assert content != odf.content_xml([[["a  b", "c"]]], {"all_spaces_as_s": True, "explicit_c": True}).decode("utf-8"), case
         odf.write_ods(path, [[["a  b", "c"]]], {}, raw_content=content.encode("utf-8"))
     elif kind == "missing-sheet":
-        odf.write_ods(path, [table] * case["sheets"], features)
+        odf.write_ods(path, [table] * case["sheets"], dict(features, sheet_names=case["names"]) if case.get("names") else features)
         sheet = case["sheet"]
+    elif kind == "flip":
+        # one byte of the archive inverted: inside the compressed content.xml the document cannot be read any more
+        import zipfile
+
+        odf.write_ods(path, [table], features)
+        with open(path, "rb") as stream:
+            content = stream.read()
+        with zipfile.ZipFile(io.BytesIO(content)) as archive:
+            info = archive.getinfo("content.xml")
+        name_length, extra_length = int.from_bytes(content[info.header_offset + 26:info.header_offset + 28], "little"), int.from_bytes(content[info.header_offset + 28:info.header_offset + 30], "little")
+        start = info.header_offset + 30 + name_length + extra_length
+        must_fail = start <= case["at"] < start + info.compress_size
+        with open(path, "wb") as stream:
+            stream.write(content[: case["at"]] + bytes([content[case["at"]] ^ 0xFF]) + content[case["at"] + 1:])
     elif kind == "truncate":
         odf.write_ods(path, [table], features)
         with open(path, "rb") as stream:
@@ -195,6 +209,8 @@ def fault_case(case, part):
     part.transitions += 1
     part.validated += 1
     part.outcome("fault:" + outcome)
+    if kind == "flip" and not must_fail and outcome == "rows":
+        return  # the damage sits where the reader does not look
     if outcome != "DataFormatError":
         what = case.get("text", "") or case.get("what", "")
         part.fail("fault:%s%s|%s" % (kind, (":" + what) if what else "", "read-without-error" if outcome == "rows" else outcome), case, "DataFormatError", detail)
@@ -268,12 +284,17 @@ def run(ctx):
     for sheets in (1, 2, 3):
         faults.append({"kind": "missing-sheet", "sheets": sheets, "sheet": sheets + 1})
         faults.append({"kind": "missing-sheet", "sheets": sheets, "sheet": sheets + 5})
+        # sheet names that would mean something to a format string
+        for names in (["Growth in %"], ["100%", "%s"], ["%d sheets", "50%discount", "%(x)s"]):
+            faults.append({"kind": "missing-sheet", "sheets": sheets, "sheet": sheets + 1, "names": names})
     path = path_for("size")
     odf.write_ods(path, [[["a", "b", "b"], ["a", "b", "b"], ["c  d", "", "e"]]], {"col_runs": True, "row_runs": True})
     size = os.path.getsize(path)
     for at in range(0, size, 64 if quick else 1):
         faults.append({"kind": "truncate", "at": at})
     faults.append({"kind": "truncate", "at": size - 1})
+    for at in range(0, size, 16 if quick else 1):
+        faults.append({"kind": "flip", "at": at})
     ctx.pmap(MOD, "work", engine.chunks(cases, 200) + engine.chunks(faults, 60), label="C15")
     ctx.bound = {"tables": len(cases), "fault cases": len(faults), "switch subsets": "all subsets of up to %d of %d encoding features on 13 structured tables (runs, duplicate rows, whitespace, ragged and empty rows, up to 6x8)" % (switch_limit, len(SWITCHES)),
                  "small tables": "all tables of the shapes %s over %s; all 1x1 / 1x2%s tables over the full 20-cell alphabet" % (shapes, SMALL, "" if quick else " / 2x1 / 2x2"),
